@@ -98,8 +98,10 @@ def do_OP_CHECKLOCKTIMEVERIFY(vm: Any) -> None:
         raise ScriptError("empty stack on CHECKLOCKTIMEVERIFY")
     if len(vm.stack[-1]) > 5:
         raise ScriptError("script number overflow")
+    top_item = vm.stack[-1]
     max_lock_time = vm.pop_int(max_size=5)
-    vm.push_int(max_lock_time)
+    # the operand stays on the stack exactly as it was (it may be non-minimally encoded)
+    vm.append(top_item)
     if max_lock_time < 0:
         raise ScriptError("top stack item negative on CHECKLOCKTIMEVERIFY")
     era_max = max_lock_time >= 500000000
@@ -143,8 +145,10 @@ def do_OP_CHECKSEQUENCEVERIFY(vm: Any) -> None:
         )
     if len(vm.stack[-1]) > 5:
         raise ScriptError("script number overflow", errno.INVALID_STACK_OPERATION + 1)
+    top_item = vm.stack[-1]
     sequence = vm.pop_int(max_size=5)
-    vm.push_int(sequence)
+    # the operand stays on the stack exactly as it was (it may be non-minimally encoded)
+    vm.append(top_item)
     if sequence < 0:
         raise ScriptError(
             "top stack item negative on CHECKSEQUENCEVERIFY", errno.NEGATIVE_LOCKTIME
